@@ -286,23 +286,51 @@ def r04_1(ctx):
             b = crate.by_id[fn]
             for k, locs in ks.items():
                 per_file.setdefault(b.file, {}).setdefault(k, []).extend((b, bi, ln) for bi, ln in locs)
+        # first pass: local proofs, open edges per (file, kind)
+        opens = {}
         for f, ks in sorted(per_file.items()):
             for k, locs in sorted(ks.items()):
                 total += len(locs)
                 proofs = [(x, bi, ln, local_proof(x, bi)) for x, bi, ln in locs]
-                proved = [p for p in proofs if p[3]]
-                open_ = [p for p in proofs if not p[3]]
-                for x, bi, ln, why_ in proved:
+                for x, bi, ln, why_ in [p for p in proofs if p[3]]:
                     ctx.ob(f"{crate.kind}:{f}:{k}:proved:{x.name}:{_nth(proved_seen, (f, k, x.name))}", True, site(x, bi), "dead edge by a local argument: " + why_, trivial=True)
-                if not open_:
-                    continue
-                allowed = want.get(f, {}).get(k, {}).get("count", 0)
-                ok = len(open_) <= allowed
-                why = want.get(f, {}).get(k, {}).get("why", "NOT REVIEWED")
-                b0, bi0, _, _ = open_[0]
-                ctx.ob(f"{crate.kind}:{f}:{k}", ok, site(b0, bi0),
-                       f"{len(open_)} edge(s) without a local proof, reviewed {allowed}: {why[:300]}" if ok else
-                       f"unreviewed panic edge: {len(open_)} `{k}` edge(s) in {f} without a local proof at {sorted({(x.name, ln) for x, _, ln, _ in open_})}, {allowed} reviewed for this file")
+                open_ = [p for p in proofs if not p[3]]
+                if open_:
+                    opens[(f, k)] = open_
+        # what each reviewed entry still has to give: code that moved to another file keeps its function name, so
+        # an edge in excess in file B, function f, is covered by the entry of a file A that names `f` and now
+        # has fewer edges of that kind than reviewed
+        spare = {}
+        for f, ks in want.items():
+            for k, e in ks.items():
+                left = e.get("count", 0) - len(opens.get((f, k), []))
+                if left > 0:
+                    spare[(f, k)] = [left, {seg.split(":")[0].strip() for seg in e.get("why", "").split(" | ")}]
+        for (f, k), open_ in sorted(opens.items()):
+            allowed = want.get(f, {}).get(k, {}).get("count", 0)
+            excess = open_[allowed:] if len(open_) > allowed else []
+            moved = []
+            if excess:
+                # prefer to explain the edges whose function is named by a donor entry
+                pool = sorted(open_, key=lambda p_: 0 if any(p_[0].name in names for (g, k2), (left, names) in spare.items() if k2 == k and g != f) else 1)
+                need = len(open_) - allowed
+                for p_ in pool:
+                    if need == 0:
+                        break
+                    for (g, k2), ent in spare.items():
+                        if k2 == k and g != f and ent[0] > 0 and p_[0].name in ent[1]:
+                            ent[0] -= 1
+                            need -= 1
+                            moved.append((p_[0].name, g))
+                            break
+                excess = excess if need > 0 else []
+            ok = not excess
+            why = want.get(f, {}).get(k, {}).get("why", "NOT REVIEWED")
+            b0, bi0, _, _ = open_[0]
+            note = f" ({len(moved)} of them moved here with their function from {sorted({g for _, g in moved})})" if moved else ""
+            ctx.ob(f"{crate.kind}:{f}:{k}", ok, site(b0, bi0),
+                   f"{len(open_)} edge(s) without a local proof, reviewed {allowed}{note}: {why[:300]}" if ok else
+                   f"unreviewed panic edge: {len(open_)} `{k}` edge(s) in {f} without a local proof at {sorted({(x.name, ln) for x, _, ln, _ in open_})}, {allowed} reviewed for this file")
     ctx.ob("edges-counted", total >= 30, "lib+bin", f"{total} panic-capable edge(s) in this configuration ({ctx.config})")
     # positive control: the same enumerator sees the control crate's panics
     ctl = ctx.facts.controls
